@@ -5,7 +5,8 @@ proof : coq/proofs/Secrets_Proofs.v (T1 no_secret_in_observables, T2 secrets_typ
 tie   : (a) Gen_Sinks.v regenerated from the source (every logger.* / raise / __repr__ / __str__ sink of EVERY module of
         the package — scrapli/response.py, helper.py, factory.py included — with the identifiers flowing into it, closed
         under local assignments, call edges and attribute stores; a dataclass object formatted as a whole stands for every
-        field its generated repr prints) + `sinks_ok (outside known_region gen_sinks) = true`
+        field its generated repr prints; every in-place store into a container some __repr__ prints by reference — the
+        user's transport_options dict — is a sink row of kind SStore) + `sinks_ok (outside known_region gen_sinks) = true`
         decided by vm_compute (the full statement is refuted: known finding C12-response-*-hidden-input);
         (b) correspondence of model/Secrets.v [run_op] against the real channel / driver code (sync and asyncio)
         on the same generated scenarios: canary secrets through every in-channel login path, privilege escalation,
@@ -19,8 +20,13 @@ oracle: independent of the model — every record on the 'scrapli' logger tree a
         Response.textfsm_parse_output, and the failing writes of the runs through the REAL transport plugins (harness/c12_rt.py: fake pty / socket / stream / library channel) with the
         endpoint dead at a write of the login / escalation / hidden-input dialogue; the LIBRARY authentication of the paramiko /
         asyncssh plugins (harness/c12_auth.py: their real open() against fakes of the library objects and against in-process
-        loopback ssh servers that reject the password / the key, accept, drop during the authentication)."""
+        loopback ssh servers that reject the password / the key, accept, drop during the authentication).
+        repr() / str() of the DRIVER are taken at every `repr` op and at the end of every scenario (family topts: drivers
+        built with the transport_options kwarg for every transport that reads it, looked at before open(), after a
+        successful / failed open() and after close(), the user's own option dict included) and are model cases too
+        (OpRepr / OpStr of the configuration given at construction: what the driver shows may not depend on its history)."""
 import asyncio
+import copy
 import io
 import json
 import logging
@@ -45,6 +51,7 @@ SOURCES = [
 ]
 META = ["%s", "{0}", "\\", "(", "[", "$", "%(x)s", ".*", "{}", "\\d", "^", "|", "?", "*", "+", ")", "]", "%d", "%r",
         "'", '"', " ", "#", ">", "{", "}", "%"]
+CREDENTIAL_KWARGS = ("auth_password", "auth_private_key_passphrase", "auth_secondary")
 BLOCK_S = 6.0          # how long a blocking read blocks in the timeout scenarios
 TIMEOUT_OPS = 1.5      # timeout_ops of those scenarios; nothing is asserted about time (the oracle scans what became
 #                        observable, a timer firing outside a blocking read is left out of the model cases)
@@ -476,13 +483,17 @@ def run_scenario(sc, workdir):
 
     dev, inner = make_device(sc)
     dev.start()
-    kw = dict(sc.get("driver_kwargs", {}))
+    # the kwargs are the USER's objects: a deep copy of the scenario's (what scrapli does to them must not change the
+    # scenario that goes into a replay file); the transport_options dict handed to the driver is kept to be looked at
+    kw = copy.deepcopy(dict(sc.get("driver_kwargs", {})))
+    user_opts = kw.get("transport_options")
+    pristine = copy.deepcopy({k: v for k, v in kw.items() if k not in CREDENTIAL_KWARGS})
     block = bool(sc.get("timeout"))
     if block:
         kw["timeout_ops"] = TIMEOUT_OPS
     chanlog = _ChanLog(events)
     kw["channel_log"] = chanlog
-    obs = {"exceptions": [], "reprs": [], "results": [], "responses": []}
+    obs = {"exceptions": [], "reprs": [], "results": [], "responses": [], "repr_points": []}
     r = Runner(stack)
     d = None
     actx = None
@@ -502,6 +513,27 @@ def run_scenario(sc, workdir):
         else:
             d = make_driver(sc["kind"], stack, dev, tuple(sc.get("policy", ["whole"])), sc.get("fault"), **kw)
         instrument(d, stack, events, block)
+        # the configuration the user gave (model/Secrets.v [conf]): what repr() / str() of the driver may show, at ANY
+        # point of its life cycle, is decided from this — taken before the first operation
+        cdesc = {"host": str(d.host), "user": str(d.auth_username), "key": str(d.auth_private_key), "rest": repr(pristine),
+                 "pw": kw.get("auth_password", ""), "ph": kw.get("auth_private_key_passphrase", ""),
+                 "sec2": kw.get("auth_secondary", "")}
+
+        def probe_driver(tag):
+            """repr() / str() of the driver (and of the option dict the user handed in, which repr(driver) prints)"""
+            shown_r, shown_s = repr(d), str(d)
+            obs["reprs"].append(("repr" + tag, shown_r))
+            obs["reprs"].append(("str" + tag, shown_s))
+            events.append(("drv_probe", "repr", cdesc, shown_r))
+            events.append(("drv_probe", "str", cdesc, shown_s))
+            if user_opts is not None:
+                obs["reprs"].append(("user_transport_options" + tag, repr(user_opts)))
+            openers = [x for x in done if x.startswith(("open", "transport_open", "login_"))]
+            obs["repr_points"].append("after close" if [x for x in done if x.startswith("close")] else
+                                      "after failed open" if [x for x in openers if x.endswith("!")] else
+                                      "after open" if openers else "before open")
+
+        done = []
 
         def note_exc(e, where):
             chain, seen = [], set()
@@ -595,8 +627,7 @@ def run_scenario(sc, workdir):
                 elif name == "get_prompt":
                     obs["results"].append(r.call(d.get_prompt))
                 elif name == "repr":
-                    obs["reprs"].append(("repr", repr(d)))
-                    obs["reprs"].append(("str", str(d)))
+                    probe_driver("")
                     obs["reprs"].append(("repr_channel", repr(d.channel) + str(d.channel)))
                     obs["reprs"].append(("repr_transport", repr(d.transport) + str(d.transport)))
                 elif name == "close":
@@ -608,11 +639,13 @@ def run_scenario(sc, workdir):
                 break
             except Exception as e:  # noqa
                 note_exc(e, name)
+                done.append(name + "!")
                 if sc.get("stop_on_error", True):
                     break
+            else:
+                done.append(name)
         if d is not None:
-            obs["reprs"].append(("repr_after", repr(d)))
-            obs["reprs"].append(("str_after", str(d)))
+            probe_driver("_after")
     finally:
         if actx is not None:
             obs["offered"] = [list(x) for x in actx.offered]
@@ -827,6 +860,15 @@ def build_resp_case(pr, rdesc, shown, exc, items):
     else:
         trace = ["ORepr %s" % coq_msg(P(shown))]
     return "(%s %s, ([] : list rev), (%s : list obs), ([] : msg), %d%%nat)" % (ctor, r, coq_list(trace), 1 if exc is not None else 0)
+
+def build_conf_case(pr, cdesc, shown, items):
+    """Coq case term for one repr() / str() of the DRIVER: the model's [m_repr] / [m_str] of the configuration the user
+    gave at construction, against what the real driver shows at this point of its life cycle"""
+    P = items.proj
+    ctor = {"repr": "OpRepr", "str": "OpStr"}[pr]
+    c = "(mkConf %s)" % " ".join(coq_msg(P(cdesc[k])) for k in ("host", "user", "key", "rest", "pw", "ph", "sec2"))
+    return "(%s %s, ([] : list rev), ([ORepr %s] : list obs), ([] : msg), 0%%nat)" % (ctor, c, coq_msg(P(shown)))
+
 
 FLAG_NAMES = ["kick", "user", "pass", "phrase", "prompt", "denied", "input", "expect", "complete"]
 
@@ -1251,6 +1293,79 @@ def gen_libauth(rng):
     return sc_libauth(rng, tname, "fake", key, password, rng.choice(RT_KINDS), channel)
 
 
+# the transports that read the user's transport_options, and what a user puts there for them
+TOPTS_TRANSPORTS = ["asyncssh", "paramiko", "system", "telnet", "asynctelnet"]
+
+
+def user_transport_options(rng, tname, tok, real_library=False):
+    """a transport_options dict as a user writes it for transport `tname` (`tok`: a public marker that must show in
+    repr(driver)); real_library: only options the real client library accepts (loopback endpoints)"""
+    if tname == "asyncssh":
+        inner = {"keepalive_interval": rng.choice([5, 30]), "client_version": tok}
+        if not real_library:
+            inner["kex_algs"] = ["curve25519-sha256", "diffie-hellman-group14-sha1"][:rng.choice([1, 2])]
+            if rng.random() < 0.3:
+                inner["username"] = tok        # the documented use: options override scrapli's own connect() arguments
+        opts = {"asyncssh": inner}
+    elif tname == "paramiko":
+        opts = {"enable_rsa2": rng.choice([True, False]), "paramiko": {"banner_timeout": 5, "tag": tok}}
+    elif tname == "system":
+        opts = {"open_cmd": rng.choice([["-o", "KexAlgorithms=+diffie-hellman-group14-sha1", "-o", "SendEnv=" + tok], "-o SendEnv=" + tok]),
+                "ptyprocess": {"rows": rng.choice([24, 80]), "cols": 100}}
+    else:
+        opts = {tname: {"tag": tok}, "open_cmd": ["-v"]}
+    if rng.random() < 0.3:
+        # options for another transport ride along (one dict shared by drivers on different transports)
+        other = rng.choice([t for t in TOPTS_TRANSPORTS[:3] if t != tname])
+        for k, v in user_transport_options(rng, other, tok).items():
+            opts.setdefault(k, v)
+    return opts
+
+
+def sc_topts(rng, tname, mode, kind=None, endpoint="fake", dialogue=False):
+    """a driver constructed with the rarely used `transport_options` kwarg, on a transport that reads it; repr() / str()
+    of the driver (and the user's own option dict, which repr(driver) prints) are taken BEFORE open(), AFTER open()
+    — mode good: it succeeded, bad: the password was rejected — and AFTER close().
+    asyncssh / paramiko: the plugin's real open() (library authentication against fakes / a loopback server);
+    system / telnet / asynctelnet: the real plugin over a fake endpoint (system: the real _build_open_cmd)."""
+    tok = "optTok%04d" % rng.randrange(10000)
+    kind = kind or rng.choice(RT_KINDS)
+    if tname in LIBAUTH:
+        if endpoint == "loopback":
+            kind = "generic"
+        sc = sc_libauth(rng, tname, endpoint, None, "accept" if mode == "good" else "reject", kind, policy=["whole"])
+    else:
+        sc = sc_rt(rng, tname, kind, policy=["whole"])
+        if mode == "bad":
+            sc["device"]["password"] = canary(rng, "X", 0)
+    sc["driver_kwargs"]["transport_options"] = user_transport_options(rng, tname, tok, real_library=(endpoint == "loopback"))
+    opener = sc["ops"][0]
+    if mode == "good" and dialogue:
+        ops = [["repr"]] + sc["ops"] + [["repr"]]
+    else:
+        ops = [["repr"], opener, ["repr"], ["close"], ["repr"]]
+    sc.update(family="topts", mode="%s/%s %s%s" % (tname, endpoint if tname in LIBAUTH else "endpoint", mode, "+dialogue" if dialogue and mode == "good" else ""),
+              ops=ops, stop_on_error=False, publics=sc["publics"] + [tok])
+    return sc
+
+
+def corpus_topts(rng):
+    out = []
+    for tname in TOPTS_TRANSPORTS:
+        out.append(sc_topts(rng, tname, "good", dialogue=(tname in ("asyncssh", "system"))))
+        if tname != "asynctelnet":      # the asyncio telnet login sleeps per loop iteration
+            out.append(sc_topts(rng, tname, "bad"))
+    out.append(sc_topts(rng, "asyncssh", "good", kind="generic"))
+    out.append(sc_topts(rng, "asyncssh", "bad", kind="cisco_iosxe"))
+    out.append(sc_topts(rng, "asyncssh", rng.choice(["good", "bad"]), endpoint="loopback"))
+    return out
+
+
+def gen_topts(rng):
+    tname = rng.choice(["asyncssh", "asyncssh", "paramiko", "system", "telnet"])
+    return sc_topts(rng, tname, rng.choice(["good", "good", "bad"]), dialogue=rng.random() < 0.3)
+
+
 def rt_faults(rng, sc, obs, every):
     """the same dialogue with the endpoint dead at one of its writes: at EVERY write that carries a secret, and at
     one other write (all other writes when `every`); the exception is one the plugin's endpoint raises"""
@@ -1462,6 +1577,9 @@ def run(rep):
     # library-authenticated transports: own stream (derived from rep.rng after the streams above, which stay what they were)
     lrng = random.Random(rng.getrandbits(64))
     scenarios += corpus_libauth(lrng) + [gen_libauth(lrng) for _ in range(400 if thorough else 16)]
+    # drivers constructed with transport_options: own stream again (derived last)
+    trng = random.Random(lrng.getrandbits(64))
+    scenarios += corpus_topts(trng) + [gen_topts(trng) for _ in range(300 if thorough else 10)]
     # replays of listed findings run first
     for f in rep.findings:
         p = os.path.join(common.VERIF, f.get("replay", ""))
@@ -1472,7 +1590,8 @@ def run(rep):
                 rep.notes.append("finding replay %s unreadable: %s" % (p, e))
     dist = {"family": {}, "mode": {}, "stack": {}, "kind": {}, "policy": {}, "exception": {}, "ops_modelled": {},
             "secret_len": {}, "metachar_secrets": 0, "writes_redacted": 0, "writes_shown": 0, "flag_hits": {},
-            "responses": {}, "response_probes": {}, "write_faults": {}, "real_transport": {}, "library_auth": {}}
+            "responses": {}, "response_probes": {}, "write_faults": {}, "real_transport": {}, "library_auth": {},
+            "transport_options": {}, "driver_repr_at": {}}
     terms, term_src = [], []
     resp_terms = set()
     nviol = 0
@@ -1494,8 +1613,14 @@ def run(rep):
             dist["responses"][key] = dist["responses"].get(key, 0) + 1
             for pr in rs["probes"]:
                 dist["response_probes"][pr] = dist["response_probes"].get(pr, 0) + 1
-        if sc["family"] in ("rt", "libauth"):
+        if sc["family"] in ("rt", "libauth", "topts"):
             dist["real_transport"][sc["transport"]] = dist["real_transport"].get(sc["transport"], 0) + 1
+        if sc["family"] == "topts":
+            # at which points of the life cycle the driver was looked at ("open!": the open failed)
+            key = "%s %s" % (sc["transport"], " | ".join(obs.get("repr_points", [])))
+            dist["transport_options"][key] = dist["transport_options"].get(key, 0) + 1
+        for pt in obs.get("repr_points", []):
+            dist["driver_repr_at"][pt] = dist["driver_repr_at"].get(pt, 0) + 1
         if sc["family"] == "libauth":
             # which authentication outcome, how it reached the user, and whether the password crossed to the server side
             la = sc["libauth"]
@@ -1553,6 +1678,18 @@ def run(rep):
             term_src.append((si, label, exc))
             rep.evaluations += 1
         for ev in obs["events"]:
+            if ev[0] != "drv_probe":
+                continue
+            term = build_conf_case(ev[1], ev[2], ev[3], items)
+            label = "Driver." + ev[1]
+            dist["ops_modelled"][label] = dist["ops_modelled"].get(label, 0) + 1
+            rep.evaluations += 1
+            if term in resp_terms:
+                continue            # the same abstract probe was already handed to the model
+            resp_terms.add(term)
+            terms.append(term)
+            term_src.append((si, label, None))
+        for ev in obs["events"]:
             if ev[0] != "resp_probe":
                 continue
             term = build_resp_case(ev[1], ev[2], ev[3], ev[4], items)
@@ -1573,16 +1710,20 @@ def run(rep):
                                       "distribution": dist, "model_disagreements": None if bad is None else len(bad),
                                       "oracle_violations": nviol}
     rep.coverage["generated_from"] = common.source_hashes(SOURCES)
-    rep.coverage["generated"] = {k: info.get(k) for k in ("sinks", "log", "raise", "repr", "files")}
+    rep.coverage["generated"] = {k: info.get(k) for k in ("sinks", "log", "raise", "repr", "store", "files", "inplace_stores_seen", "stores_into_shown")}
     rep.coverage["secret_reaching_sinks"] = info.get("secret_reaching", [])
     rep.rule = ("scenario = (family, mode, driver kind, stack, chunking policy, canary values); corpus (the enable-without-password "
                 "defect on every platform and stack, permission denied, rejected logins, disconnects, timeouts, refused hidden inputs "
                 "with failed responses, every real transport plugin with a fake endpoint: whole login / escalation / hidden-input "
                 "dialogues and the endpoint dead at every secret-carrying write; the real open() of the paramiko / asyncssh plugins with "
                 "the server side rejecting the password / the key, accepting, dropping during / right after the authentication, "
-                "through open() and the context manager: fakes of the library objects and in-process loopback ssh servers) + seeded scenarios + "
+                "through open() and the context manager: fakes of the library objects and in-process loopback ssh servers; drivers "
+                "constructed with transport_options={...} on asyncssh / paramiko (real open()), system (real _build_open_cmd), telnet, "
+                "asynctelnet: repr()/str() of the driver and the user's own option dict before open, after a successful / rejected "
+                "open and after close) + seeded scenarios + "
                 "a malformed stream (all-metacharacter / very long / format-looking secrets, truthy non-bool hidden flag); "
                 "every Response / MultiResponse handed to the user is probed with str(), raise_for_status() and (no hidden input) repr(); "
+                "every repr()/str() of a driver is one model case (OpRepr / OpStr of the configuration given at construction); "
                 "non-trivial = a secret was actually typed at the device; every scenario is scanned by the oracle, every channel "
                 "operation and _escalate call inside it is one model case")
     if bad is None:
@@ -1668,7 +1809,11 @@ MANIFEST = {
             "`_plugin_transport_args`, any identifier annotated / constructed / named as a holder of one — stands for every field its "
             "generated repr prints, auth_password included) reaches the message except under the redacted / hidden_input guard — PARTIAL: outside the two sinks of the "
             "known finding C12-response-*-hidden-input (Response.__repr__, the `no template` warning of textfsm_parse_output), for "
-            "which the full statement is refuted by computation. Partial / observed only: the real runtime is observed, not proved — "
+            "which the full statement is refuted by computation. The table also holds, as sinks of kind SStore, every in-place store "
+            "(x[k] = v, update / setdefault / append / extend / insert / add) whose receiver may be — through names, attributes, "
+            "subscripts, .get()/.setdefault()/.pop() results, local assignments, attribute stores and call edges — an object that a "
+            "__repr__ / __str__ of the package formats as a whole: BaseDriver.__repr__ prints the user's own transport_options dict by "
+            "reference, so a credential stored into it (or into a dict taken out of it) by any transport is a flow into repr(driver). Partial / observed only: the real runtime is observed, not proved — "
             "canary secrets (regex/format metacharacters included) through telnet login, system-ssh login, enable / root-shell "
             "escalation and hidden interact events on every core driver, sync and asyncio, good / rejected / refused / unasked / "
             "disconnect / timeout paths, DEBUG on the whole 'scrapli' logger tree, both file handlers, repr/str, str(exception chain), "
@@ -1681,13 +1826,20 @@ MANIFEST = {
             "context manager) with the server side rejecting the password, rejecting / failing to load / accepting the key, accepting "
             "the password, dropping the connection during the authentication (EOF / no session / reset / broken pipe / ConnectionLost / "
             "DisconnectError / timeout) or when the shell channel is requested — against fakes of the library objects (every outcome, "
-            "the dialogue goes on after an accepted one) and with the real client libraries against in-process loopback ssh servers.",
+            "the dialogue goes on after an accepted one) and with the real client libraries against in-process loopback ssh servers; "
+            "drivers constructed with the transport_options kwarg for every transport that reads it (asyncssh {'asyncssh': {...}} and "
+            "paramiko enable_rsa2 through their real open(), system open_cmd / ptyprocess through the real _build_open_cmd, telnet / "
+            "asynctelnet; options of another transport riding along): repr() and str() of the driver AND the option dict the user "
+            "handed in (same object repr(driver) prints) before open(), after a successful open(), after an open() the server / device "
+            "rejected, after close(); every repr()/str() of a driver in any scenario is compared with the model's OpRepr / OpStr of "
+            "the configuration given at construction (the atoms shown may not change over the life cycle).",
     "note": "Trusted: Coq kernel + vm_compute; the hand model coq/model/Secrets.v (tied to the code by running every channel operation "
             "of every scenario through the model on the history observed at the transport: same write records REDACTED-or-shown, reads, "
             "channel log, exception class; other records compared as sets of data items); gen/gen_sinks.py (identifier-level value flow "
             "is a syntactic approximation of Python semantics: attribute names not objects (an attribute load stands for every store "
             "under that name: class family for self, package-wide otherwise), calls resolved by name and receiver, no "
-            "aliasing through containers, getattr/**kwargs/format(**vars()) not followed; which identifiers hold a dataclass object is "
+            "aliasing through containers for VALUE flows (in-place stores into a container that a __repr__ prints are rows of their own, see "
+            "SStore), getattr/**kwargs/format(**vars()) not followed; which identifiers hold a dataclass object is "
             "decided from annotations, constructor calls, typed attribute stores and, since the objects travel through untyped "
             "factories, the holder's name; a dataclass with its own __repr__ / repr=False is a sink row of its own / prints nothing); SimDevice and the login front-ends. Pattern "
             "matching is abstracted (the answers are part of the universally quantified history). Not modelled: transports' own "
@@ -1695,7 +1847,13 @@ MANIFEST = {
             "paramiko / asyncssh, by the oracle-only library-authentication scenarios below; ssh2 by the sink table only), "
             "send_input_and_read, read_callback, asyncio TimeoutError iterations of the asyncio ssh login. Response / MultiResponse "
             "str / repr / raise_for_status are modelled (resp record built from host, channel_input, failed_when_contains of the real "
-            "object; one model case per probe). ORACLE-ONLY (no Coq model, covered by the sink table + the canary oracle): "
+            "object; one model case per probe). Driver repr()/str(): model cases OpRepr / OpStr whose conf record is built from the "
+            "kwargs the scenario gave at construction (pristine deep copy, credentials apart) — the model's conf is STATIC, the "
+            "transports' use of transport_options (AsyncsshTransport.open merging it into connect(), SystemTransport._build_open_cmd, "
+            "ParamikoTransport enable_rsa2) has no Coq model: that nothing is stored into the printed dict is the SStore rows of the "
+            "sink table (syntactic alias approximation: names not objects, copies / literals / other calls break the alias) plus the "
+            "canary oracle on the topts scenarios, where the user's dict is also scanned directly; the system plugin's open() is "
+            "still a stub (it runs the real _build_open_cmd, then attaches the fake pty). ORACLE-ONLY (no Coq model, covered by the sink table + the canary oracle): "
             "Response.textfsm_parse_output and every run with a failing transport write (model cases stop at a twrite exception); the real "
             "transport plugins are driven through fake endpoints (harness/c12_rt.py: open() replaced on the instance, the library "
             "authentication of paramiko / asyncssh / ssh2 is not run there; ssh2 is skipped when not installed). ORACLE-ONLY as well: the "
